@@ -284,7 +284,11 @@ class Exec:
             for b, s in self.nv(e['b'], st, fr, T):
                 if e.get('arrow') and isinstance(b, Obj) and isinstance(s.heap.get(b.addr), list):
                     b = s.heap[b.addr][1]
-                if isinstance(b, Obj): yield ('field', b.addr, e['n']), s
+                if isinstance(b, Obj):
+                    cur = s.heap.get(b.addr)
+                    fv = cur.get(e['n']) if isinstance(cur, dict) else None
+                    if isinstance(fv, tuple) and fv and fv[0] == 'refto': yield fv[1], s          # reference member
+                    else: yield ('field', b.addr, e['n']), s
                 elif isinstance(b, Cur): yield ('val', CurField(b.pos, e['n'])), s
                 else: yield ('val', Unknown('member')), s
             return
@@ -786,7 +790,18 @@ class Exec:
             def inits(i, s):
                 if i == len(fn['inits']): yield from after_inits(s); return
                 ini = fn['inits'][i]
-                if 'field' in ini:
+                if 'field' in ini and self.field_is_ref(fn, ini['field']) and ini.get('e') is not None:
+                    # reference member: bind the location, not the value
+                    for loc, s2 in self.lval(ini['e'], s, f):
+                        if loc[0] == 'val' and isinstance(loc[1], Thrown): yield ('throw', loc[1].what, s2); continue
+                        if isinstance(f.this, Obj):
+                            if loc[0] == 'objref': s2.heap[f.this.addr][ini['field']] = loc[1]
+                            elif loc[0] == 'val': s2.heap[f.this.addr][ini['field']] = loc[1]
+                            else:
+                                v0 = self.load(s2, loc)
+                                s2.heap[f.this.addr][ini['field']] = v0 if isinstance(v0, Obj) else ('refto', loc)
+                        yield from inits(i + 1, s2)
+                elif 'field' in ini:
                     for v, s2 in self.ev_init(ini['e'], s, f):
                         if isinstance(v, Thrown): yield ('throw', v.what, s2); continue
                         if isinstance(f.this, Obj):
@@ -811,6 +826,14 @@ class Exec:
             yield from inits(0, st)
         else:
             yield from after_inits(st)
+
+    def field_is_ref(self, fn, field):
+        cls = (fn.get('cls') or {}).get('s')
+        r = self.db.records.get(cls) if hasattr(self.db, 'records') else None
+        if not r: return False
+        for fd in r.get('fields', []):
+            if fd['n'] == field: return fd['t'].endswith('&')
+        return False
 
     def ev_init(self, e, st, fr):
         if e is None: yield Unknown('noinit'), st; return
